@@ -70,6 +70,7 @@ type world struct {
 	listeners map[string]*FakeListener
 	udp       map[string]*UDPConn
 	nextPort  int
+	tcpClients int
 	Conns     []*FakeConn
 }
 
@@ -110,6 +111,7 @@ type Segment struct {
 	Data   []byte
 	Thread int
 	Step   int
+	At     time.Time // virtual time of the write
 }
 
 // FakeConn is one endpoint of an in-memory stream (tcp) or a connected datagram socket (udp client).
@@ -205,7 +207,7 @@ func (c *FakeConn) Write(b []byte) (int, error) {
 		return 0, &net.OpError{Op: "write", Net: c.network, Err: errors.New("injected write failure")}
 	}
 	data := append([]byte{}, b...)
-	c.Writes = append(c.Writes, Segment{Data: data, Thread: vsched.CurID(), Step: vsched.StepNo()})
+	c.Writes = append(c.Writes, Segment{Data: data, Thread: vsched.CurID(), Step: vsched.StepNo(), At: vsched.VNow()})
 	if c.network == "udp" {
 		wd := w()
 		if u, ok := wd.udp[c.udpTarget]; ok && !u.closed {
@@ -318,7 +320,12 @@ func Dial(network, address string) (Conn, error) {
 			return nil, &net.OpError{Op: "dial", Net: network, Err: errors.New("connection refused")}
 		}
 		cport := wd.port()
-		ca := &net.TCPAddr{IP: net.ParseIP("127.0.0.1"), Port: cport}
+		// every other client reaches the (dual-stack) listener from the IPv6 loopback address
+		ip := "127.0.0.1"
+		if wd.tcpClients++; wd.tcpClients%2 == 0 {
+			ip = "::1"
+		}
+		ca := &net.TCPAddr{IP: net.ParseIP(ip), Port: cport}
 		cl := &FakeConn{Name: fmt.Sprintf("tcp-client:%d", cport), network: "tcp", local: ca, remote: l.addr}
 		sv := &FakeConn{Name: fmt.Sprintf("tcp-server:%d", cport), network: "tcp", local: l.addr, remote: ca}
 		cl.peer, sv.peer = sv, cl
